@@ -338,6 +338,24 @@ fn workload(m: &mut Mon, bits: usize) {
             }
         }
     }
+    // The same shapes once more for the interpreter lanes, unthinned and split between the shards (a light lane
+    // executes about one `mul` case per width otherwise): single non-zero limbs at every pair of offsets, so that
+    // the low zero limbs of the operands together reach and exceed the limb count.
+    if m.is_light() && (2..=5).contains(&n) {
+        let mut idx = 0u64;
+        for i in 0..n {
+            for j in 0..n {
+                idx += 1;
+                if m.light_owns(idx, "mul") {
+                    let mut a = gen::zero(bits);
+                    let mut b = gen::zero(bits);
+                    a[i] = u64::MAX;
+                    b[j] = 3;
+                    m.case_always("mul", bits, vec![au(&gen::canon(a, bits)), au(&gen::canon(b, bits))]);
+                }
+            }
+        }
+    }
     // Low zero limbs on both operands plus an interior zero limb in one of them (a zero row inside the
     // schoolbook loop while the accumulator window is nearly exhausted).
     if n >= 3 {
